@@ -301,6 +301,29 @@ pub fn run(tier: &str) -> i32 {
         drop(vs);
         parts.push(json!({"part": "small-histories", "family": name, "depth": depth, "complete_histories": leaves, "secs": t.elapsed().as_secs_f64()}));
     }
+    // (1c) range matrix (shared with C01): every batch shape (a present, n appended) and every
+    // clear(s, e) over the first bitfield words, then reopen; has() on all indices and the
+    // contiguous length after every step
+    {
+        let mats = super::c01::range_matrix(tier);
+        let next = std::sync::atomic::AtomicUsize::new(0);
+        let t = std::time::Instant::now();
+        std::thread::scope(|s| {
+            for _ in 0..nthreads().min(mats.len().max(1)) {
+                s.spawn(|| {
+                    let mut v = ObsVisitor::new("C08", &rep, &stats, &states, &outcomes, true);
+                    loop {
+                        let i = next.fetch_add(1, std::sync::atomic::Ordering::Relaxed);
+                        if i >= mats.len() {
+                            break;
+                        }
+                        super::c01::run_all_prefixes(&mats[i], &mut v);
+                    }
+                });
+            }
+        });
+        parts.push(json!({"part": "range-matrix", "histories": mats.len(), "secs": t.elapsed().as_secs_f64()}));
+    }
     // replica saturations with contiguous length compared
     let gs = FpSet::default();
     for n in if quick { vec![3u64, 5] } else { vec![3, 5, 6, 7] } {
